@@ -165,6 +165,11 @@ def gen_dep_type(rng, ew, key_cls, depth=1, allow_combo=True):
     w = ew.w
     supers = [c for c in range(w.n) if w.tables_cache["sub"][key_cls][c]]
     bound = ["cls", rng.choice(supers)]
+    # now and then the bound is a user class predicate (class_check): its hook counter is what C20 watches
+    pk = [k for k, row in enumerate(w.tables_cache["pred"][:3]) if row[key_cls]]
+    if pk and rng.random() < 0.2:
+        k = rng.choice(pk)
+        bound = ["pred", 9000 + k, k]
     r = rng.random()
     vals_here = [i for i, v in enumerate(POOL) if type(v) is w.classes[key_cls]]
     if r < 0.4 and vals_here:
@@ -172,7 +177,7 @@ def gen_dep_type(rng, ew, key_cls, depth=1, allow_combo=True):
         vs = [rng.choice(vals_here if rng.random() < 0.85 else list(range(len(POOL)))) for _ in range(n)]
         vs = [v for v in vs if not isinstance(POOL[v], (list, dict))] or [vals_here[0] if not isinstance(POOL[vals_here[0]], (list, dict)) else 0]
         b = ["cls", ew.cls_id(POOL[vs[0]])] if rng.random() < 0.8 else bound
-        if not w.tables_cache["sub"][key_cls][b[1]]:
+        if b[0] == "cls" and not w.tables_cache["sub"][key_cls][b[1]]:
             b = bound
         return ["lit", vs, b]
     if r < 0.6:
